@@ -39,6 +39,11 @@ def plan(tier, seed):
                     level='bounded-in-J'))
     gs.append(Group('DTCWTInverse[J=2,absent band-pass levels,region=crop-needed]', MD.g_dtcwt_inverse, (2, 2, -1, 'symbolic'), finding='F8',
                     level='bounded-in-J', replay=rp('dtcwt_inverse', absent={'level': 0, 'kind': 'none'})))
+    # unbounded in the number of levels (all levels present): level-loop invariant with symbolic J
+    for (o, r) in ((2, -1), (1, 2), (5, 0)):
+        gs.append(Group('DTCWTInverse[J symbolic,o=%d,ri=%d]' % (o, r), MD.g_dtcwt_inverse_symJ, (o, r),
+                        functions=[(T2, 'DTCWTInverse.__init__'), (T2, 'DTCWTInverse.forward')], replay=rp('dtcwt_inverse', o_dim=o, ri_dim=r)))
+    gs.append(Group('canary:symbolic-J-step-with-exchanged-tree-filters', MD.g_dtcwt_inverse_symJ, (2, -1, 'symmetric', True), canary=True))
     gs += sign_table_groups()
     gs.append(Group('canary:wrong-interleave', D.g_dt_filter, ('colifilt', 'symmetric', False, True), canary=True))
     pairs = [('antonini', 'qshift_06'), ('legall', 'qshift_a'), ('near_sym_a', 'qshift_b'), ('near_sym_b', 'qshift_c'), ('near_sym_a', 'qshift_d')]
